@@ -174,7 +174,22 @@ pub fn run_c13(a: &Args, rep: &mut Report) {
             let mode = rng.below(40);
             let (line, enc) = if mode == 0 {
                 // unknown mnemonic
-                let bogus = format!("{}{}", name, *rng.pick(&["x", "q", "128", "8"]));
+                let bogus = match rng.below(3) {
+                    0 => format!("{}{}", name, *rng.pick(&["x", "q", "128", "8", "64", "32", "16", "b", "h", "w", "dw", "0", "i", "s"])),
+                    1 => format!("{}{}", *rng.pick(&["s", "x", "j", "ld", "st", "u", "a"]), name),
+                    _ => {
+                        // drop or double a character
+                        let mut cs: Vec<char> = name.chars().collect();
+                        let i = rng.below(cs.len() as u64) as usize;
+                        if rng.chance(1, 2) && cs.len() > 1 {
+                            cs.remove(i);
+                        } else {
+                            let c = cs[i];
+                            cs.insert(i, c);
+                        }
+                        cs.into_iter().collect()
+                    }
+                };
                 if table.iter().any(|(n, _, _)| *n == bogus) {
                     continue;
                 }
@@ -779,6 +794,7 @@ pub fn run_c16(a: &Args, rep: &mut Report) {
         vec![100_000, 250_000, 450_000, 700_000, 1_000_000]
     };
     let my_long: Vec<usize> = long_lens.iter().enumerate().filter(|(i, _)| *i as u64 % a.nshards == a.shard % a.nshards).map(|(_, l)| *l).collect();
+    let all_ops = all_supported_opcodes();
     for k in 0..n + my_long.len() as u64 {
         let canonical = k % 2 == 0 || k >= n;
         let p = if k >= n {
@@ -791,7 +807,9 @@ pub fn run_c16(a: &Args, rep: &mut Report) {
             }
             v
         } else {
-            gen_prog(&mut rng, &ops, canonical, canonical, 600)
+            // the second half (arbitrary fields) ranges over ALL supported opcodes, including those the
+            // assembler has no mnemonic for: if it accepts the text anyway, the bytes must still be canon(p)
+            gen_prog(&mut rng, if canonical { &ops } else { &all_ops }, canonical, canonical, 600)
         };
         let bytes = encode_prog(&p);
         rep.case(Some(fnv(&bytes)));
@@ -1035,8 +1053,9 @@ pub fn run_c17(a: &Args, rep: &mut Report) {
         let src = rng.below(16) as u8;
         let off = rng.interesting_i16().0;
         let imm = rng.interesting_i32().0;
-        let mut code = BpfCode::new();
-        let which = k % 12;
+        let built = sys::catch(|| {
+        let mut code = if k % 2 == 0 { BpfCode::new() } else { BpfCode::default() };
+        let which = (k / 2) % 12;
         // returns (expected opcode, constructor name)
         let (opc, cname): (u8, String) = match which {
             0 => {
@@ -1120,7 +1139,15 @@ pub fn run_c17(a: &Args, rep: &mut Report) {
                 }
             }
         };
-        let got = code.into_bytes().to_vec();
+        (opc, cname, code.into_bytes().to_vec())
+        });
+        let (opc, cname, got) = match built {
+            Ok(x) => x,
+            Err(p) => {
+                rep.violation(&format!("C17:builder-panic:{}", sys::panic_site(&p)), format!("the instruction builder panicked (constructor #{}, builder from {}): {p}", (k / 2) % 12, if k % 2 == 0 { "new()" } else { "default()" }), json!({"kind": "builder-case", "constructor_index": (k / 2) % 12, "default": k % 2 == 1}));
+                continue;
+            }
+        };
         let i = Insn::new(opc, dst, src, off, imm);
         let enc = rinsn(&i).to_array().to_vec();
         rep.case(Some(fnv(&got) ^ k));
